@@ -65,17 +65,43 @@ namespace Givaro
 
               template<typename T> Element& init(Element& r, const T& a) const
               {
-                  reduce(r, Caster<Element>((a < 0)? -a : a));
-                  if (a < 0) negin(r);
-                  return r;
+                  return _init(r, a, typename std::is_floating_point<T>::type(),
+                               std::integral_constant<bool, std::is_integral<T>::value && (sizeof(T) <= 8)
+                               && (sizeof(T) < sizeof(Element) || (sizeof(T) == sizeof(Element) && is_ruint<Element>::value))>());
               }
 
               Element& init(Element& r, const Integer& a) const
+              {
+                  // canonical remainder in [0,p) taken over Z: the conversion Integer -> Element keeps
+                  // only the low bits of a value that does not fit
+                  Integer t;
+                  Integer::mod(t, a, Integer(_p));
+                  return r = Caster<Element>(t);
+              }
+
+          private:
+              // integer-valued floating source: exact through Integer
+              template<typename T> Element& _init(Element& r, const T& a, std::true_type, std::false_type) const
+              {
+                  if (!std::isfinite(a)) return r = this->zero;
+                  return init(r, Integer(static_cast<double>(a)));
+              }
+              // machine integer whose magnitude fits Element: magnitude in uint64_t (-a overflows for the minimum)
+              template<typename T> Element& _init(Element& r, const T& a, std::false_type, std::true_type) const
+              {
+                  const uint64_t ua = (a < 0) ? uint64_t(0) - static_cast<uint64_t>(a) : static_cast<uint64_t>(a);
+                  reduce(r, Caster<Element>(ua));
+                  if (a < 0) negin(r);
+                  return r;
+              }
+              // anything else
+              template<typename T> Element& _init(Element& r, const T& a, std::false_type, std::false_type) const
               {
                   reduce(r, Caster<Element>((a < 0)? -a : a));
                   if (a < 0) negin(r);
                   return r;
               }
+          public:
 
               // ----- Convert and reduce
               __GIVARO_CONDITIONAL_TEMPLATE(S = Storage_t, is_ruint<S>::value)
